@@ -174,10 +174,10 @@ PROPS = {
     "C10": {
         "families": [("timers", 900, 25000), ("restart", 300, 8000), ("mailbox", 200, 6000), ("faults", 200, 6000)],
         "monitors": ["C10"],
-        "theorems": ["C10_not_early", "C10_sleep_is_a_full_period", "C10_timers_die_with_the_actor", "C10_none_after_death"],
+        "theorems": ["C10_not_early", "C10_sleep_is_a_full_period", "C10_timers_die_with_the_actor", "C10_none_after_death", "C10_schedule", "C10_fire_rule", "C10_dead_actor_has_no_live_timer", "C10_nothing_left_when_the_run_ends"],
         "nontrivial": nt_c10,
         "rule": "cases generated from (family, VERIF_SEED, index): 0-4 timers of mixed kinds (interval, interval_with, delayed_send, delayed_exec) with periods 1..50 virtual ms, both mailbox kinds, termination at any virtual time by any cause, expiries racing with runnable tasks on the virtual clock; non-trivial = a timer fired at least twice or the actor ended while a timer task existed; distinct = distinct case JSON",
-        "assumptions": ["'delivery' of a tick = the timer submitting its message (handling of ticks queued behind a slow handler is bunched by necessity)", "exact tick counts on an idle actor are checked by the search acceptor (interval timers fire at exactly registration + k*period on the virtual clock) and by the model's progress check at clock events, not by a theorem"],
+        "assumptions": ["'delivery' of a tick = the timer submitting its message (handling of ticks queued behind a slow handler is bunched by necessity)", "the virtual clock of the harness's executor advances only when no task is runnable (that is what makes 'exactly registration + k*period' observable at all); C10_schedule is about traces the model accepts, and the model accepts a clock event only under that rule"],
     },
     "C17": {
         "families": [("owning", 1200, 30000), ("faults", 200, 6000)],
@@ -393,10 +393,12 @@ MANIFEST_TEXT = {
         "design_ref": "DESIGN.md section 6 C07",
     },
     "C10": {
-        "text": "Theorems (Coq): C10_not_early, C10_sleep_is_a_full_period (one-step, every state), C10_timers_die_with_the_actor (every way the task ends aborts every timer), C10_none_after_death (for every continuation: an aborted timer never fires). "
-                "[partial] exact tick counts on an idle actor, 'never keeps the actor alive' and 'no timer task is leaked' are enforced by model rules (progress check at clock events; reference counts; timer end events) and validated by correspondence and the search acceptor.",
+        "text": "Theorems (Coq): C10_schedule (simulation, every accepted trace of any length: the k-th delivery of an interval is submitted at exactly registration + k*period, consecutive deliveries of an interval_with are at least a period apart, delayed_send / delayed_exec fire at most once and at exactly registration + delay; the machine is Chk/C10.v, also extracted and run on every implementation trace), "
+                "C10_not_early, C10_sleep_is_a_full_period (one-step, every state), C10_timers_die_with_the_actor (every way the task ends aborts every timer), C10_none_after_death (an aborted timer never fires, on any continuation), C10_dead_actor_has_no_live_timer (every reachable state), "
+                "C10_nothing_left_when_the_run_ends (a run can end only with every timer task of every terminated actor ended and no live timer still due: no leak, due timers do fire). "
+                "[partial] 'timers never keep the actor alive' is the reference accounting of C05 (a timer holds a reference only while its waiting submit is parked) plus correspondence; that the implementation's runs are among the accepted traces is the correspondence check.",
         "note": COMMON_NOTE,
-        "technique": "Rocq/Coq proof (one-step theorems + invariant over all continuations) over an executable model with a virtual clock; correspondence by differential run of model and implementation",
+        "technique": "Rocq/Coq proof (simulation of every accepted trace by a schedule machine, invariants over all reachable states, one-step theorems) over an executable model with a virtual clock; correspondence by differential run of model and implementation",
         "design_ref": "DESIGN.md section 6 C10",
     },
     "C17": {
